@@ -128,7 +128,11 @@ fn sample_of(scn: &Scenario, rec: &RunRecord) -> serde_json::Value {
 
 fn make_replay(property: &str, seed: u64, index: u64, original: &Scenario, f: &Failing, tests: u64) -> ReplayFile {
     // one more run with the trace switched on, for the file
-    let (rec, _) = run_and_judge(property, &f.scenario, true).unwrap_or((f.record.clone(), vec![]));
+    let (mut rec, _) = run_and_judge(property, &f.scenario, true).unwrap_or((f.record.clone(), vec![]));
+    if rec.discard.is_some() {
+        // this process can no longer run scenarios (see poisoned_at_start): keep the original record
+        rec = f.record.clone();
+    }
     ReplayFile {
         property: property.to_string(),
         seed,
@@ -226,6 +230,16 @@ fn worker(args: &[String]) -> i32 {
                 }
             }
             RunOutcome::Done(rec) => {
+                if rec.poisoned_at_start {
+                    // nothing after this can be trusted in this process; the run that caused it has
+                    // been reported (stop_flag_survives_start_query)
+                    rep.harness_errors.retain(|e| !e.starts_with("process poisoned"));
+                    if rep.violations_total == 0 {
+                        rep.harness_errors.push(format!("process poisoned before run {} although no run reported it", index));
+                    }
+                    rep.runs -= 1;
+                    break;
+                }
                 if let Some(why) = &rec.discard {
                     rep.discarded += 1;
                     let key: String = why.split(' ').take(2).collect::<Vec<_>>().join(" ");
